@@ -12,6 +12,21 @@ NOTE = ("Trusted base: Lean 4.33 kernel (axioms propext, Classical.choice, Quot.
         "alv.py. ")
 
 CLAIMS = {
+ "C10": dict(
+   text="Theorems AL.Properties.C10.rejected_line_fails_call / rejected_line_in_program (a rejected line at ANY position fails the call "
+        "in every mode and the instance is exactly what the preceding lines alone leave: nothing is emitted for it), reject_nonprintable "
+        "(every byte >0x7e anywhere before a comment), reject_unknown_mnemonic (every name not in the table, any operands), "
+        "C10Table.reject_bad_format + supported_forms_found (kernel evaluation on the regenerated table against the FROZEN list "
+        "AL.Spec.supported: for all 201 mnemonics x all 781 operand-kind strings the lookup succeeds exactly on the frozen forms), "
+        "reject_unknown_register / strToReg_unknown, reject_empty_operand, reject_unclosed_bracket, reject_bad_scale, "
+        "reject_stack_pointer_index. Tie + oracle: generated malformed families (412 misspelt mnemonics, 128 register lines, 46k "
+        "mnemonic x kind tuples, operand/memory syntax, bytes 0x7f..0xff at every position) alone under option bytes and "
+        "first/middle/last in programs in plain/fitting/counting mode.",
+   note="'Operand kinds' are the library's own classes (r covers general and MMX registers): a general register where an MMX register "
+        "is required is not distinguished at this level (it is an encoding question, C04). The per-family lemmas are about AL.Impl "
+        "functions and are lifted to whole lines by the T2 correspondence, not by a single end-to-end theorem over rendered syntax.",
+   technique="Lean 4 proofs (induction over text/tables, kernel evaluation of the full mnemonic x operand-kind matrix) + generated malformed families",
+   design="8/C10"),
  "C16": dict(
    text="Theorems AL.Properties.C16.case_insensitive / comment_irrelevant / leading_blanks / operand_blanks / skipped_lines / crlf "
         "(AL.Lemmas.filterGo_case, filterGo_comment, filterGo_deblank): for EVERY byte string, not only the corpora, the per-line "
